@@ -3,8 +3,6 @@
 package knx
 
 import (
-	"container/list"
-
 	"github.com/vapourismo/knx-go/knx/cemi"
 	"github.com/vapourismo/knx-go/knx/knxnet"
 )
@@ -27,15 +25,18 @@ func HarnessC17(a []int) {
 	}
 	var order []int
 	gate := make(chan struct{})
-	var inbound chan cemi.Message
+	var inbound <-chan cemi.Message
 	var push func(cemi.Message)
 	switch client {
 	case 0:
 		conn := vTunnel(newVSock(), false)
 		inbound, push = conn.inbound, conn.pushInbound
 	case 1:
-		r := &Router{sock: newVSock(), inbound: make(chan cemi.Message), retainer: list.New()}
-		inbound, push = r.inbound, r.pushInbound
+		// the real client behind its constructor: indications enter through the socket, the real
+		// serve loop hands them on (no unexported field of Router is named here)
+		r, in := newRouterEnv(2, 0)
+		inbound = r.Inbound()
+		push = func(m cemi.Message) { in <- &knxnet.RoutingInd{Payload: m} }
 	case 3, 4:
 		conn := vTunnel(newVSock(), client == 4)
 		conn.channel = 9
@@ -45,8 +46,9 @@ func HarnessC17(a []int) {
 			conn.handleTunnelReq(&knxnet.TunnelReq{Channel: 9, SeqNumber: seq, Payload: m}, &seq)
 		}
 	default:
-		inbound = make(chan cemi.Message)
-		push = func(m cemi.Message) { inbound <- m }
+		ch := make(chan cemi.Message)
+		inbound = ch
+		push = func(m cemi.Message) { ch <- m }
 	}
 	consume := func(next func() (int, bool)) {
 		verifDaemon()
